@@ -213,6 +213,9 @@ _dispatch_time_nanoseconds_since_epoch(dispatch_time_t when)
 		return (uint64_t)-(int64_t)when;
 	}
 
-	// Up time or monotonic time.
-	return _dispatch_get_nanoseconds() + _dispatch_timeout(when);
+	// Up time or monotonic time. Compute the remaining time on the deadline's own
+	// clock *before* reading the wall clock: if the thread is preempted between
+	// the two reads the wait then ends late by that gap, never early.
+	uint64_t remaining = _dispatch_timeout(when);
+	return _dispatch_get_nanoseconds() + remaining;
 }
